@@ -333,12 +333,16 @@ def precedence(check, prog):
                                ('const', 'optics')), sym('pars')), ()))
     model_val = intern(('idx', om, ('const', 'noise_sd')))
     data_val = intern(('attr', sym('schema'), 'noise_sd'))
-    # (the model's value may come attached to the data's channel labels)
+    # (the model's value may come attached to the data's channel labels -- when
+    # there are data: the `noise_sd` property asks without any)
     model_lab = intern(('call', DTA, (sym('schema'), model_val), ()))
+    there = intern(('cmp', 'is not', sym('schema'), NONE))
+    model_lab2 = intern(('ite', there, model_lab, model_val))
     ok = False
     for o in res.returns:
         for x in subterms(o.value):
-            if x[0] == 'ite' and x[2] in (model_val, model_lab) and x[3] == data_val:
+            if x[0] == 'ite' and x[2] in (model_val, model_lab, model_lab2) and \
+                    x[3] == data_val:
                 c = x[1]
                 ok = any(y == ('cmp', 'is not', model_val, NONE) for y in subterms(c))
     check.require(ok, 'P5-noise-precedence', 'Model._find_noise',
@@ -500,7 +504,9 @@ def precedence_tables(check, prog):
             if b and not a:
                 continue
             src = mv if (a and b) else (dv if c else None)
-            asg = {A: a, B: b, C: c, U: u}
+            asg = {A: a, B: b, C: c, U: u,
+                   intern(('cmp', 'is not', schema, NONE)): True,
+                   intern(('cmp', 'is', schema, NONE)): False}
             if src is not None:
                 asg[intern(('cmp', 'is', src, NONE))] = nn
                 # the chosen value may appear as a conditional expression
